@@ -24,7 +24,8 @@ CONSTANTS Frames,     \* sequence of [n |-> payload length, good |-> payload dec
           MaxLen,     \* the reader's max_len
           MaxPend,    \* bound on consecutive Pending outcomes
           MaxErr,     \* bound on transient errors
-          MaxReads    \* bound on read() calls the caller starts
+          MaxReads,   \* bound on read() calls the caller starts (negative: unbounded, for the liveness configuration)
+          KeepSched   \* TRUE: sched is the whole history (replay scripts); FALSE: only the last event (finite state space for liveness)
 
 NF == Len(Frames)
 RECURSIVE StreamFrom(_)
@@ -56,10 +57,10 @@ Init == /\ cut \in 0..Total
         /\ fut = "none" /\ rd = 0 /\ out = <<>> /\ npend = 0 /\ nerr = 0 /\ nreads = 0 /\ sched = <<>>
 
 Ret(r) == out' = Append(out, r) /\ fut' = "none" /\ UNCHANGED cut
-Log(e) == sched' = Append(sched, e)
+Log(e) == sched' = IF KeepSched THEN Append(sched, e) ELSE <<e>>
 
 \* ---- caller ---------------------------------------------------------------------
-Start  == /\ fut = "none" /\ nreads < MaxReads /\ nreads' = nreads + 1 /\ fut' = "run" /\ Log([a |-> "start", k |-> 0])
+Start  == /\ fut = "none" /\ (MaxReads < 0 \/ nreads < MaxReads) /\ nreads' = (IF MaxReads < 0 THEN 0 ELSE nreads + 1) /\ fut' = "run" /\ Log([a |-> "start", k |-> 0])
           /\ UNCHANGED <<cut, tag, lenbuf, need, off, buf, rd, out, npend, nerr>>
 Resume == /\ fut = "susp" /\ fut' = "run" /\ Log([a |-> "resume", k |-> 0])
           /\ UNCHANGED <<cut, tag, lenbuf, need, off, buf, rd, out, npend, nerr, nreads>>
@@ -125,4 +126,23 @@ InvalidLenJustified == Count("invalid_len") > 0 => \E f \in 1..NF : Frames[f].n 
 BufferBounded == Len(buf) <= MaxLen /\ need <= MaxLen /\ off <= need
 \* the reader stays in sync with the frame structure
 StaysInSync == lenbuf = <<>> \/ InSync
+
+(* ---- liveness ----------------------------------------------------------------------------------------------------------  *)
+(* A caller that stops after a terminal result (clean end, unexpected end, invalid length) and otherwise keeps reading; a   *)
+(* source that, when asked, eventually delivers or ends (it cannot answer Pending or fail forever: MaxPend, MaxErr); an      *)
+(* executor that keeps polling.  Then every read terminates and the conversation reaches a terminal result, by which time    *)
+(* every complete frame in front of the first over-long one has been handed out - however often futures were dropped.       *)
+Terminal == out # <<>> /\ out[Len(out)][1] \in {"end", "unexpected_eof", "invalid_len"}
+StartL == ~Terminal /\ Start
+NextL == StartL \/ Resume \/ Drop \/ LenComplete \/ ValComplete \/ Deliver \/ Eof \/ Pending \/ Fail
+LiveSpec == /\ Init /\ [][NextL]_vars
+            /\ WF_vars(StartL) /\ WF_vars(Resume) /\ WF_vars(LenComplete) /\ WF_vars(ValComplete)
+            /\ SF_vars(Deliver) /\ SF_vars(Eof)
+RECURSIVE FirstTooLong(_)
+FirstTooLong(f) == IF f > NF THEN NF + 1 ELSE IF Frames[f].n > MaxLen THEN f ELSE FirstTooLong(f + 1)
+\* frames that are completely inside the cut stream and in front of the first frame the reader must refuse
+Deliverable == Cardinality({ f \in 1..NF : FrameEnd(f) <= cut /\ f < FirstTooLong(1) })
+EventuallyTerminal == <>Terminal
+AllDeliveredAtEnd  == [](Terminal => Len(Vals) = Deliverable)
+NoReadHangs        == [](fut = "run" => <>(fut # "run"))
 =============================================================================
